@@ -6,6 +6,11 @@ ALL = ["C%02d" % i for i in range(1, 21)]
 
 # id -> (level category, engine, technique, level text, level note, design ref)
 CLAIMED = {
+ "C11": ("exploration", "E1 expression/statement enumeration with a reference evaluator",
+         "exhaustive enumeration of if-feature token strings up to a length bound x all 8 feature assignments x guardable statement kinds, and of deviation kind x property x target, each loaded by the real parser/resolver and compared with a reference RFC 7950 evaluator / a differential dump",
+         "Every token string of length <= 5 (thorough 7: 2.4 million) over {a,b,c,and,or,not,(,)} is parsed by a reference recursive-descent grammar (RFC 7950 7.20.2); malformed strings (classified: unbalanced, missing operand/operator, leading/trailing operator) must fail the load; valid ones are evaluated under all 2^3 assignments and compared with the presence of the guarded node after a real load (length <= 4) or with IfFeature.Evaluate on the compiled expression (longer). White-space variants (double space, tab, newline, outer space, tight parentheses); every valid expression of <= 3 tokens on 14 guardable statement kinds (leaf, container, list, leaf-list, choice, case, uses, augment, uses-augment, refine, two if-features, anydata, rpc, notification) under allow-list, deny-list and default configurations; own-prefix, imported-prefix and feature-on-feature names. 40 deviations (not-supported on every node kind; add/replace/delete of every property incl. type, unique, must, leaf-list defaults; illegal uses): the canonical accessor dump of the deviated module must differ from the undeviated one in exactly the named property or node, with the exact new value.",
+         "trusted: reference parser/evaluator (c11Parse/eval) and the canonical dump (internal/model/dump.go)",
+         "DESIGN.md section 7 C11"),
  "C13": ("exploration", "E5 exhaustive request enumeration in crash-proof workers",
          "exhaustive enumeration of request contents over small alphabets (JSON kinds x schema positions, byte prefixes and single-token mutations of JSON/XML documents, all paths / query strings / XPath texts up to a length bound, Go kinds for SetValue), each executed on the real code in worker processes with deadlines",
          "Against a valid schema (all leaf types, nested and compound-key lists, choice, rpc, notification) holding a non-trivial tree: 19 JSON value kinds substituted at 33 positions of a valid document and every byte prefix and single-token deletion/duplication/substitution of valid JSON and XML documents, each used as Upsert, Insert and Update source; every Find path of <= 3 segments over a 46-segment alphabet from two start selections (what is found is then read); every query parameter x 29 values and all pairs, on root, container, list, entry and notification selections; every XPath text of <= 3 (thorough 4) tokens over a 28-token alphabet as where=, filter= and when; SetValue of 40 Go values and kinds on 13 leaf types. Every request runs in a worker process (stack limit, deadline, crash bisected to the single request): no panic, fatal error or hang; a scalar/array where a container is declared, an object/scalar where a list is declared and a non-object list entry must be errors; keys on non-lists and steps below leaves must be errors; the stored tree must be readable afterwards.",
